@@ -234,7 +234,7 @@ func Discharge(obls []*Obligation, counts map[*Obligation][]*countDef, cfg RunCo
 			}
 		}
 		for _, t := range present {
-			if t.Op == "var" && len(vals) < 60 && (t.Sort == SInt || t.Sort == SBool) && !strings.Contains(t.Name, "!") {
+			if t.Op == "var" && len(vals) < 80 && (t.Sort == SInt || t.Sort == SBool) && (!strings.Contains(t.Name, "!") || strings.HasPrefix(t.Name, "call.")) {
 				dup := false
 				for _, v := range vals {
 					if v == t {
